@@ -18,26 +18,24 @@ ERROR awkward_ListOffsetArray_argsort_strings_impl(
   const int64_t* stringstarts,
   const int64_t* stringstops) {
 
-  auto sorter =
-        [&stringdata, &stringstarts, &stringstops](int left, int right) -> bool {
-          size_t left_n = stringstops[left] - stringstarts[left];
-          size_t right_n = stringstops[right] - stringstarts[right];
+  // strict "less than" on whole byte strings (memcmp: embedded zero bytes take part in the comparison)
+  auto less =
+        [&stringdata, &stringstarts, &stringstops](int64_t left, int64_t right) -> bool {
+          size_t left_n = (size_t)(stringstops[left] - stringstarts[left]);
+          size_t right_n = (size_t)(stringstops[right] - stringstarts[right]);
           const char* left_str = &stringdata[stringstarts[left]];
           const char* right_str = &stringdata[stringstarts[right]];
-          int cmp = strncmp(left_str, right_str, std::min(left_n, right_n));
-          bool out;
+          int cmp = memcmp(left_str, right_str, std::min(left_n, right_n));
           if (cmp == 0) {
-            out = left_n < right_n;
+            return left_n < right_n;
           }
-          else {
-            out = cmp < 0;
-          }
-          if (is_ascending) {
-            return out;
-          }
-          else {
-            return !out;
-          }
+          return cmp < 0;
+        };
+  // descending order is "greater than", not "not less than": the comparator must stay a strict weak ordering,
+  // otherwise equal strings are reordered by stable_sort and std::sort is undefined
+  auto sorter =
+        [&less](int64_t left, int64_t right) -> bool {
+          return is_ascending ? less(left, right) : less(right, left);
         };
 
   int64_t firstindex = 0;
